@@ -216,6 +216,9 @@ Octagonal_Shape<T>::Status::ascii_load(std::istream& s) {
   if (positive) {
     set_empty();
   }
+  else {
+    reset_empty();
+  }
 
   if (!get_field(s, strong_closed, positive)) {
     return false;
